@@ -54,11 +54,13 @@ def _names_in(node):
 
 def allowed(q: str, sink: str, call: ast.Call, fe):
     """Is this sink occurrence within the effect contract?  Returns (ok, reason)."""
-    if sink.startswith("subprocess.") and q == f"{LS}._update_version_pypi":
+    if sink.startswith("subprocess.") and q.startswith(LS + "."):
+        # wherever in the server it is made: a command line built from literals and the interpreter path only
         if call.args and isinstance(call.args[0], ast.List):
             ok = all(_const_str(e) or ast.unparse(e) == "sys.executable" for e in call.args[0].elts)
             shell = any(kw.arg == "shell" for kw in call.keywords)
-            if ok and not shell:
+            pip = [e.value for e in call.args[0].elts if _const_str(e)][:3] == ["-m", "pip", "install"]
+            if ok and pip and not shell:
                 return True, "pip self-update: argument vector of literals and sys.executable, no shell"
         return False, "subprocess call whose argument vector is not made of literals"
     if sink == "urllib.request.urlopen" and q == f"{LS}._update_version_pypi":
@@ -66,11 +68,35 @@ def allowed(q: str, sink: str, call: ast.Call, fe):
     if sink in ("logging.basicConfig",):
         for kw in call.keywords:
             if kw.arg == "filename":
-                src = fe.info.source()
-                if q == f"{LS}._config_logger" and "fname = 'fortls_debug.log'" in ast.unparse(fe.info.node) \
-                        and "os.path.join(self.root_path, fname)" in ast.unparse(fe.info.node):
-                    return True, "debug log: <root>/fortls_debug.log"
-                return False, "log file name not of the form <root>/fortls_debug.log"
+                # the file name is <root>/<literal>.log, whatever the locals are called
+                fn = fe.info.node
+
+                def reaching(name, before):
+                    """the assignment to `name` that textually precedes line `before` most closely (the function is straight
+                    line code around the call; a computed value anywhere on the way is not a literal and fails the rule)"""
+                    cands = [n for n in ast.walk(fn) if isinstance(n, ast.Assign) and len(n.targets) == 1
+                             and isinstance(n.targets[0], ast.Name) and n.targets[0].id == name and n.lineno < before]
+                    return max(cands, key=lambda n: n.lineno) if cands else None
+
+                def literal_log(e, at, depth=0):
+                    if _const_str(e):
+                        return e.value.endswith(".log") and "/" not in e.value and ".." not in e.value
+                    if isinstance(e, ast.Name) and depth < 3:
+                        a = reaching(e.id, at)
+                        return a is not None and literal_log(a.value, a.lineno, depth + 1)
+                    return False
+
+                def root_log(e, at, depth=0):
+                    if (isinstance(e, ast.Call) and ast.unparse(e.func) == "os.path.join" and len(e.args) == 2
+                            and ast.unparse(e.args[0]) == "self.root_path"):
+                        return literal_log(e.args[1], at)
+                    if isinstance(e, ast.Name) and depth < 3:
+                        a = reaching(e.id, at)
+                        return a is not None and root_log(a.value, a.lineno, depth + 1)
+                    return False
+                if q.startswith(LS + ".") and root_log(kw.value, call.lineno):
+                    return True, "debug log: <root>/<literal>.log"
+                return False, "log file name not of the form <root>/<literal>.log"
         return True, "console logging"
     if sink == "open" or sink.endswith(".open"):
         mode = _open_mode(call)
